@@ -67,8 +67,17 @@ def extra(tier, rng, workdir):
                                      "what": "tx %d is marked trusted in the shared mempool although only untrusted connections announced / sent it"
                                              % o[1] if want == 0 else "tx %d announced by the trusted peer is not marked trusted" % o[1]})
                     break
-    return {"failures": failures, "evaluations": 2 * len(cases) + len(vcases),
-            "coverage": {"two_run_pairs": len(cases), "untrusted_steps_interleaved": nu, "vouching_scenarios": len(vcases),
+    # "cannot stall syncing": an untrusted peer's double spend arriving while the trusted peer's block is inside
+    # ProcessBlock (pause point in the announcement): both threads must finish.  From the pipeline's race replays only
+    # the ones in which the injected tx comes from the untrusted peer count here.
+    rx = txflow.race_extra(tier, rng, workdir)
+    for f in rx["failures"]:
+        ops, st = f.get("ops", []), f.get("step", 0)
+        if 0 <= st < len(ops) and ops[st][0] == "race_block_conflict" and ops[st][5] == 1 and (f.get("expected") or [0])[0] in (105, 107):
+            failures.append(f)
+    rcov = {k: v for k, v in rx["coverage"].items() if k.startswith("block_conflict_race")}
+    return {"failures": failures, "evaluations": 2 * len(cases) + len(vcases) + 4,
+            "coverage": {**rcov, "two_run_pairs": len(cases), "untrusted_steps_interleaved": nu, "vouching_scenarios": len(vcases),
                          "reannounced_with_orphaned_proof_not_judged": txflow.stale_coverage()}}
 
 
@@ -89,6 +98,8 @@ def accept(rec):
 
 
 def keyfn(rec):
+    if rec.get("suite") == "txflow-race":
+        return txflow.race_key(rec)
     ops = rec.get("ops", [])
     step = rec.get("step", 0)
     opn = ops[step][0] if 0 <= step < len(ops) else "?"
